@@ -1,7 +1,7 @@
 (* C20 - calibration of the synthetic data: about genR/Datasets.v (the parameter expressions _make_data hands to the
    numpy Generator, and the parameter domain of _check_params). *)
 From Coq Require Import Reals List Bool Lra.
-From TT Require Import lib.PreludeR genR.Datasets.
+From TT Require Import lib.RTac lib.PreludeR genR.Datasets.
 Local Open Scope R_scope.
 
 (* textbook means of the distributions drawn from (trusted: not derived from densities here) *)
@@ -35,21 +35,40 @@ Proof. intros Hu [-> | ->]; lra. Qed.
 
 Notation P f v := (f ratio su ou ru avs aops arpo v).
 
+(* Closed forms of the generated parameter expressions.  Everything below depends on the generated text only through
+   these lemmas, which hold up to the ring laws (lib/RTac.v), so a behaviour-preserving respelling of datasets.py does
+   not disturb the proofs. *)
+Ltac dsq := cbv [nlit nln nsqrt nexp npow nmin nmax]; cbv zeta; rq.
+Lemma variant_p_closed v : P ds_variant_p v = ratio / (1 + ratio).
+Proof. unfold ds_variant_p. dsq. Qed.
+Lemma sessions_lam_closed v : P ds_sessions_lam v = avs * (1 + su * v) - 1.
+Proof. unfold ds_sessions_lam. dsq. Qed.
+Lemma rpo_sigma_closed v : P ds_rpo_sigma v = 1 / 2.
+Proof. unfold ds_rpo_sigma. dsq. Qed.
+Lemma rpo_mean_closed v : P ds_rpo_mean v = ln (arpo * ((1 + ru * v) / (1 + ou * v))) - (1 / 2) * (1 / 2) / 2.
+Proof. unfold ds_rpo_mean. dsq. Qed.
+Lemma xrpo_sigma_closed v : P dsx_rpo_sigma v = sqrt (ln (1 + avs * (exp ((1 / 2) ^ 2) - 1))).
+Proof. unfold dsx_rpo_sigma. dsq. Qed.
+Lemma xrpo_mean_closed v : P dsx_rpo_mean v = ln (arpo * ((1 + ru * v) / (1 + ou * v))) - P dsx_rpo_sigma v * P dsx_rpo_sigma v / 2.
+Proof. unfold dsx_rpo_mean, dsx_rpo_sigma. dsq. Qed.
+Lemma cov_sessions_lam_closed v x : ds_cov_sessions_lam ratio su ou ru avs aops arpo v x = x / (1 + su * v).
+Proof. unfold ds_cov_sessions_lam. dsq. Qed.
+
 (* ----- every distribution parameter is valid on the whole documented domain, in both variants ----- *)
 Lemma variant_p_valid v : 0 < P ds_variant_p v < 1.
 Proof.
-  destruct domain_facts as (Hr & _). unfold ds_variant_p. cbv [nlit]. cbv zeta.
+  destruct domain_facts as (Hr & _). rewrite variant_p_closed.
   split; [apply Rdiv_lt_0_compat; lra|]. apply Rmult_lt_reg_r with (1 + ratio); [lra|].
   replace (ratio / (1 + ratio) * (1 + ratio)) with ratio by (field; lra). lra.
 Qed.
 
 (* requested treatment share: odds of treatment are exactly `ratio` *)
 Lemma treatment_odds v : P ds_variant_p v / (1 - P ds_variant_p v) = ratio.
-Proof. destruct domain_facts as (Hr & _). unfold ds_variant_p. cbv [nlit]. cbv zeta. field. lra. Qed.
+Proof. destruct domain_facts as (Hr & _). rewrite variant_p_closed. field. lra. Qed.
 
 Lemma sessions_lam_valid v : (v = 0 \/ v = 1) -> 0 < P ds_sessions_lam v.
 Proof.
-  intros Hv. destruct domain_facts as (_ & H & _ & _ & _ & Ha & _). unfold ds_sessions_lam. cbv [nlit]. cbv zeta.
+  intros Hv. destruct domain_facts as (_ & H & _ & _ & _ & Ha & _). rewrite sessions_lam_closed.
   destruct Hv as [-> | ->]; [lra|].
   assert (1 / avs < 1 + su) by lra.
   assert (avs * (1 / avs) < avs * (1 + su)) by (apply Rmult_lt_compat_l; lra).
@@ -58,7 +77,7 @@ Qed.
 
 Lemma ops_mean_eq v : (v = 0 \/ v = 1) ->
   P ds_ops_a v = aops * ((1 + ou * v) / (1 + su * v)) /\ P ds_ops_b v = 1 - aops * ((1 + ou * v) / (1 + su * v)).
-Proof. intros Hv. unfold ds_ops_a, ds_ops_b. cbv [nlit]. cbv zeta. split; ring. Qed.
+Proof. intros Hv. unfold ds_ops_a, ds_ops_b. split; dsq. Qed.
 
 Lemma beta_params_valid v : (v = 0 \/ v = 1) -> 0 < P ds_ops_a v /\ 0 < P ds_ops_b v.
 Proof.
@@ -83,13 +102,13 @@ Proof.
 Qed.
 
 Lemma rpo_sigma_valid v : 0 < P ds_rpo_sigma v.
-Proof. unfold ds_rpo_sigma. cbv [nlit]. cbv zeta. lra. Qed.
+Proof. rewrite rpo_sigma_closed. lra. Qed.
 
 (* sessions data rescales sigma; the new value is still a valid (positive) scale *)
 Lemma rpo_sigma_sessions_valid v : 0 < P dsx_rpo_sigma v.
 Proof.
   destruct domain_facts as (_ & _ & _ & _ & _ & Ha & _).
-  unfold dsx_rpo_sigma. cbv [nlit nsqrt nln nexp npow]. cbv zeta.
+  rewrite xrpo_sigma_closed.
   apply sqrt_lt_R0. rewrite <- ln_1. apply ln_increasing; [lra|].
   assert (1 < exp ((1 / 2) ^ 2)).
   { pose proof (exp_increasing 0 ((1 / 2) ^ 2)) as He. rewrite exp_0 in He. apply He. simpl. lra. }
@@ -106,7 +125,7 @@ Definition E_revenue_per_order (v : R) : R := lognormal_mean (P ds_rpo_mean v) (
 Definition E_revenue (v : R) : R := E_orders v * E_revenue_per_order v.
 
 Lemma E_sessions_closed v : E_sessions v = avs * (1 + su * v).
-Proof. unfold E_sessions, poisson_mean, ds_sessions_lam. cbv [nlit]. cbv zeta. ring. Qed.
+Proof. unfold E_sessions, poisson_mean. rewrite sessions_lam_closed. ring. Qed.
 
 Lemma E_ops_closed v : (v = 0 \/ v = 1) -> E_orders_per_session v = aops * ((1 + ou * v) / (1 + su * v)).
 Proof.
@@ -122,7 +141,7 @@ Qed.
 
 Lemma E_rpo_closed v : (v = 0 \/ v = 1) -> E_revenue_per_order v = arpo * ((1 + ru * v) / (1 + ou * v)).
 Proof.
-  intros Hv. unfold E_revenue_per_order, lognormal_mean, ds_rpo_mean, ds_rpo_sigma. cbv [nlit nln]. cbv zeta.
+  intros Hv. unfold E_revenue_per_order, lognormal_mean. rewrite rpo_mean_closed, rpo_sigma_closed.
   match goal with |- exp ?e = _ => replace e with (ln (arpo * ((1 + ru * v) / (1 + ou * v)))) by field end.
   apply exp_ln. apply rpo_arg_pos. exact Hv.
 Qed.
@@ -161,9 +180,8 @@ Proof.
   intros Hv. split; [reflexivity|]. split; [reflexivity|]. split.
   - unfold Ex_orders_row, E_orders, binomial_mean. change (P dsx_ops_a v) with (P ds_ops_a v).
     change (P dsx_ops_b v) with (P ds_ops_b v). unfold E_orders_per_session. ring.
-  - rewrite (E_rpo_closed v Hv). unfold Ex_rpo, lognormal_mean, dsx_rpo_mean. cbv [nlit nln]. cbv zeta.
-    match goal with |- exp (ln ?x - ?s * ?s / 2 + ?t * ?t / 2) = _ =>
-      change t with s; replace (ln x - s * s / 2 + s * s / 2) with (ln x) by field end.
+  - rewrite (E_rpo_closed v Hv). unfold Ex_rpo, lognormal_mean. rewrite xrpo_mean_closed.
+    match goal with |- exp ?e = _ => replace e with (ln (arpo * ((1 + ru * v) / (1 + ou * v)))) by field end.
     apply exp_ln. apply rpo_arg_pos. exact Hv.
 Qed.
 
@@ -175,7 +193,7 @@ Proof.
   apply Rdiv_lt_0_compat; apply mult_pos; try assumption. lra.
 Qed.
 Lemma cov_ops_eq v p : C ds_cov_ops v p = Rmin (p / ((1 + ou * v) / (1 + su * v))) 1.
-Proof. unfold ds_cov_ops. cbv [nlit nmin]. cbv zeta. reflexivity. Qed.
+Proof. unfold ds_cov_ops. first [cbv [nlit nmin]; cbv zeta; reflexivity | dsq]. Qed.
 
 (* the order probability of the covariate is a probability for EVERY order probability p in [0, 1] *)
 Theorem cov_parameters_valid v sessions p rpo : (v = 0 \/ v = 1) -> 1 <= sessions -> 0 <= p <= 1 -> 0 < rpo ->
@@ -184,7 +202,7 @@ Proof.
   intros Hv Hs Hp Hr. pose proof (ops_mult_pos v Hv) as Hm. pose proof su_pos as Hsu.
   destruct domain_facts as (_ & _ & Ho & _ & Hru & _).
   split; [|split].
-  - unfold ds_cov_sessions_lam. cbv [nlit]. cbv zeta. apply Rdiv_lt_0_compat; [lra|]. apply mult_pos; [lra | exact Hv].
+  - rewrite cov_sessions_lam_closed. apply Rdiv_lt_0_compat; [lra|]. apply mult_pos; [lra | exact Hv].
   - rewrite cov_ops_eq. split; [|apply Rmin_r]. apply Rmin_glb; [|lra].
     apply Rmult_le_pos; [lra|]. left. apply Rinv_0_lt_compat. exact Hm.
   - apply Rdiv_lt_0_compat; [exact Hr|]. apply Rdiv_lt_0_compat; apply mult_pos; assumption.
@@ -208,7 +226,7 @@ Theorem covariates_have_no_uplift v : (v = 0 \/ v = 1) ->
 Proof.
   intros Hv. pose proof su_pos as Hsu. destruct domain_facts as (_ & _ & Ho & _).
   split; [|split].
-  - unfold E_cov_sessions, poisson_mean, ds_cov_sessions_lam. cbv [nlit]. cbv zeta. rewrite E_sessions_closed.
+  - unfold E_cov_sessions, poisson_mean. rewrite cov_sessions_lam_closed, E_sessions_closed.
     field. destruct Hv as [-> | ->]; lra.
   - intros Hle p Hp. apply cov_ops_uncapped; [exact Hv|].
     apply Rle_trans with 1; [lra|]. apply Rmult_le_reg_r with (1 + su * v); [apply mult_pos; [lra | exact Hv]|].
